@@ -1166,6 +1166,24 @@ theorem rejectedBy_error {sim : List Nat → List Nat → Except ErrKind Bool}
       · cases h
       · exact rejectedBy_error h
 
+/-- the failing call of the scan is on the candidate and an accepted route -/
+theorem rejectedBy_error' {sim : List Nat → List Nat → Except ErrKind Bool}
+    {this : List (Branch α)} {e : ErrKind} :
+    ∀ {sol : List (List (Branch α))}, rejectedBy sim this sol = .error e →
+      ∃ s ∈ sol, sim (this.map (·.edge)) (s.map (·.edge)) = .error e
+  | [], h => by cases h
+  | s :: rest, h => by
+    unfold rejectedBy at h
+    split at h
+    · rename_i k hk; cases h; exact ⟨s, List.mem_cons_self, hk⟩
+    · split at h
+      · cases h
+      · obtain ⟨s', hs', h'⟩ := rejectedBy_error' h
+        exact ⟨s', List.mem_cons_of_mem _ hs', h'⟩
+
+/-- every id of the list is an edge of the graph: what the similarity functions are applied to -/
+def GraphIds (edges : List (EdgeRec α)) (l : List Nat) : Prop := ∀ e ∈ l, ∃ er, edges[e]? = some er
+
 theorem retraverse_error {cf : Config α} {e : ErrKind} :
     ∀ {es : List Nat} {prev : Option Nat} {st : List α}, retraverse cf es prev st = .error e →
       ∃ e' prev' st', edgeTraversal cf e' prev' st' = .error e
@@ -1231,17 +1249,31 @@ theorem candidate_loop_test_total (T : Trees c g source target fwd rev) {v : Nat
   obtain ⟨vs, hvs⟩ := srcVertices_total c.fwd _ hex
   exact ⟨hasDup vs, by simp [routeContainsLoop, hvs]⟩
 
+/-- a candidate consists of edges of the graph -/
+theorem candidate_graphIds (T : Trees c g source target fwd rev) {v : Nat}
+    {this : List (Branch α)} (h : svCandidate c.fwd source target fwd rev v = .ok (some this)) :
+    GraphIds c.edges (this.map (·.edge)) := by
+  obtain ⟨_, fr, rr, rfl, _, _, _, hent, hre⟩ := svCandidate_walk T h
+  intro e he
+  obtain ⟨b, hb, rfl⟩ := List.mem_map.1 he
+  rcases List.mem_append.1 hb with hb | hb
+  · obtain ⟨u, hu⟩ := hent b hb
+    exact T.fwd_edges u b hu
+  · exact hre.edges_exist b hb
+
 variable {sim : List Nat → List Nat → Except ErrKind Bool} {term : KspTerm} {k : Nat}
 
 theorem svLoop_error (T : Trees c g source target fwd rev) :
     ∀ (pops : List Nat) (queue : List (Nat × α)) (sol : List (List (Branch α))) (it : Nat)
       (e : ErrKind), (∀ p ∈ queue, (fwd.sol p.1).isSome ∧ (rev.sol p.1).isSome) →
+      (∀ s ∈ sol, GraphIds c.edges (s.map (·.edge))) →
       svLoop c.fwd sim term k source target fwd rev pops queue sol it = .error e →
-      e = .scheduleExhausted ∨ e = .badSchedule ∨ (∃ a b, sim a b = .error e) := by
+      e = .scheduleExhausted ∨ e = .badSchedule ∨
+        (∃ a b, GraphIds c.edges a ∧ GraphIds c.edges b ∧ sim a b = .error e) := by
   intro pops
   induction pops with
   | nil =>
-    intro queue sol it e _ h
+    intro queue sol it e _ _ h
     unfold svLoop at h
     split at h
     · cases h
@@ -1249,7 +1281,7 @@ theorem svLoop_error (T : Trees c g source target fwd rev) :
       · cases h
       · cases h; exact Or.inl rfl
   | cons v rest ih =>
-    intro queue sol it e hq h
+    intro queue sol it e hq hsol h
     unfold svLoop at h
     split at h
     · cases h
@@ -1268,17 +1300,26 @@ theorem svLoop_error (T : Trees c g source target fwd rev) :
           obtain ⟨o, ho⟩ := svCandidate_total T hv.1 hv.2
           rw [ho] at h
           cases o with
-          | none => exact ih _ _ _ e hq' h
+          | none => exact ih _ _ _ e hq' hsol h
           | some this =>
             simp only at h
             obtain ⟨bl, hbl⟩ := candidate_loop_test_total T ho
+            have hthis := candidate_graphIds T ho
             rw [hbl] at h
             simp only at h
             split at h
             · rename_i k' hk'
               cases h
-              exact Or.inr (Or.inr (rejectedBy_error hk'))
-            · exact ih _ _ _ e hq' h
+              obtain ⟨s, hs, hse⟩ := rejectedBy_error' hk'
+              exact Or.inr (Or.inr ⟨_, _, hthis, hsol s hs, hse⟩)
+            · refine ih _ _ _ e hq' ?_ h
+              intro s hs
+              split at hs
+              · rcases List.mem_append.1 hs with hs | hs
+                · exact hsol s hs
+                · simp only [List.mem_singleton] at hs
+                  subst hs; exact hthis
+              · exact hsol s hs
 
 end errors
 
@@ -1294,7 +1335,8 @@ theorem singleVia_error {c : Config α} {g : List α} (hf : c.fwd.AdjConsistent)
     {e : ErrKind} (h : singleVia c g sim term source target k fs rs pops = .error e) :
     runVertexOriented c.fwd.inst source (some target) fs = .error e ∨
     (runVertexOriented (c.rev g).inst target (some source) rs = .error e ∧ e.stopsQuery = true) ∨
-    e = .scheduleExhausted ∨ e = .badSchedule ∨ (∃ a b, sim a b = .error e) := by
+    e = .scheduleExhausted ∨ e = .badSchedule ∨
+      (∃ a b, GraphIds c.edges a ∧ GraphIds c.edges b ∧ sim a b = .error e) := by
   unfold singleVia at h
   simp only at h
   split at h
@@ -1319,7 +1361,15 @@ theorem singleVia_error {c : Config α} {g : List α} (hf : c.fwd.AdjConsistent)
       split at h
       · rename_i k' hk'
         cases h
-        exact Or.inr (Or.inr (svLoop_error T _ _ _ _ _ (fun p hp => mem_interQueue hp) hk'))
+        refine Or.inr (Or.inr (svLoop_error T _ _ _ _ _ (fun p hp => mem_interQueue hp) ?_ hk'))
+        intro s hs
+        simp only [List.mem_singleton] at hs
+        subst hs
+        obtain ⟨_, _, hentT⟩ := fwd_backtrack_walk' T.fwd_inv T.fwd_edges htsp
+        intro x hx
+        obtain ⟨b, hb, rfl⟩ := List.mem_map.1 hx
+        obtain ⟨u, hu⟩ := hentT b hb
+        exact T.fwd_edges u b hu
       · cases h
 
 /-! ### similarity: rank, decision, totality -/
@@ -1493,6 +1543,20 @@ theorem yenDissimilar_error {sim : List Nat → List Nat → Except ErrKind Bool
     · rename_i k hk; cases h; exact ⟨_, _, hk⟩
     · cases h
     · exact yenDissimilar_error h
+
+/-- the failing call is on an accepted route and the candidate -/
+theorem yenDissimilar_error' {sim : List Nat → List Nat → Except ErrKind Bool}
+    {cand : List (Branch α)} {e : ErrKind} :
+    ∀ {acc : List (List (Branch α))}, yenDissimilar sim cand acc = .error e →
+      ∃ t ∈ acc, sim (t.map (·.edge)) (cand.map (·.edge)) = .error e
+  | [], h => by cases h
+  | t :: rest, h => by
+    unfold yenDissimilar at h
+    split at h
+    · rename_i k hk; cases h; exact ⟨t, List.mem_cons_self, hk⟩
+    · cases h
+    · obtain ⟨t', ht', h'⟩ := yenDissimilar_error' h
+      exact ⟨t', List.mem_cons_of_mem _ ht', h'⟩
 
 theorem yenBetter_cases (best : Option (List (Branch α) × α)) (cand : List (Branch α)) (cost : α) :
     (∃ x, yenBetter best cand cost = some (cand, x)) ∨ (yenBetter best cand cost = best ∧ best ≠ none) := by
@@ -1768,7 +1832,7 @@ theorem yenSpur_error (hf : c.fwd.AdjConsistent) {prev : List (Branch α)}
     (hprev : prev ∈ accepted) {i : Nat} (hi : i + 2 < prev.length) {st : YenState α} {e : ErrKind}
     (h : yenSpur c sim target prev accepted st i = .error e) :
     (∃ cut v sched, runVertexOriented (cutCfg c cut).inst v (some target) sched = .error e ∧
-      e.stopsQuery = true) ∨ (∃ a b, sim a b = .error e) := by
+      e.stopsQuery = true) ∨ (∃ a b, GraphIds c.edges a ∧ GraphIds c.edges b ∧ sim a b = .error e) := by
   have hG := hacc prev hprev
   have hlen : (prev.take (i + 1)).length = i + 1 := by rw [List.length_take]; omega
   have hrootex : ∀ b ∈ prev.take (i + 1), ∃ er, c.fwd.edges[b.edge]? = some er := by
@@ -1827,7 +1891,12 @@ theorem yenSpur_error (hf : c.fwd.AdjConsistent) {prev : List (Branch α)}
               · split at h
                 · rename_i k hk
                   cases h
-                  exact Or.inr (yenDissimilar_error hk)
+                  obtain ⟨t, ht, hte⟩ := yenDissimilar_error' hk
+                  refine Or.inr ⟨_, _, ?_, ?_, hte⟩
+                  · exact GWalk.edges_exist (hacc t ht).walk
+                  · intro x hx
+                    obtain ⟨b, hb, rfl⟩ := List.mem_map.1 hx
+                    exact hex b hb
                 · cases h
                 · cases h
 
@@ -1837,7 +1906,7 @@ theorem yenFor_error (hf : c.fwd.AdjConsistent) {prev : List (Branch α)}
     ∀ (is : List Nat) (st : YenState α), (∀ i ∈ is, i + 2 < prev.length) →
       yenFor c sim target prev accepted is st = .error e →
       (∃ cut v sched, runVertexOriented (cutCfg c cut).inst v (some target) sched = .error e ∧
-        e.stopsQuery = true) ∨ (∃ a b, sim a b = .error e)
+        e.stopsQuery = true) ∨ (∃ a b, GraphIds c.edges a ∧ GraphIds c.edges b ∧ sim a b = .error e)
   | [], st, _, h => by cases h
   | i :: is, st, his, h => by
     unfold yenFor at h
@@ -1987,7 +2056,7 @@ theorem yenWhile_error (hf : c.fwd.AdjConsistent) :
       (e : ErrKind), YenAcc c sim source target first acc →
       yenWhile c sim term target k tree fuel acc its scheds = .err e →
       (∃ cut v sched, runVertexOriented (cutCfg c cut).inst v (some target) sched = .error e ∧
-        e.stopsQuery = true) ∨ (∃ a b, sim a b = .error e)
+        e.stopsQuery = true) ∨ (∃ a b, GraphIds c.edges a ∧ GraphIds c.edges b ∧ sim a b = .error e)
   | 0, _, _, _, _, _, h => by cases h
   | fuel + 1, acc, its, scheds, e, hacc, h => by
     unfold yenWhile at h
